@@ -191,10 +191,37 @@ struct ConsumerRec {
     client_cancel_or_drop: bool,
     candidate_causes: usize,
     delivery_between_cancel_and_ok: bool,
+    /// messages taken off the queue by the live probe (in order; the final oracle reads them first)
+    early: Vec<ConsumerMessage>,
+    /// the live probe found the queue still connected after the terminal event had been processed
+    live_open: bool,
+    live_probed: bool,
+}
+
+/// Live probe, run right after the barrier that follows a cancel: the I/O thread has dealt with
+/// the terminal event (the barrier's reply was read after it), so the queue must already be
+/// disconnected while the channel and the connection are still open - not only once the session
+/// is over and every slot has been torn down.
+fn live_probe(r: &mut ConsumerRec) {
+    let rx = match &r.rx {
+        Some(rx) => rx.clone(),
+        None => return,
+    };
+    r.live_probed = true;
+    loop {
+        match rx.recv_timeout(Duration::from_secs(2)) {
+            Ok(m) => r.early.push(m),
+            Err(crossbeam_channel::RecvTimeoutError::Disconnected) => return,
+            Err(crossbeam_channel::RecvTimeoutError::Timeout) => {
+                r.live_open = true;
+                return;
+            }
+        }
+    }
 }
 
 struct Driven {
-    recs: Vec<(usize, String, Option<Receiver<ConsumerMessage>>, Vec<Vec<u8>>, Option<Term>, bool, usize, bool)>,
+    recs: Vec<(usize, String, Option<Receiver<ConsumerMessage>>, Vec<Vec<u8>>, Option<Term>, bool, usize, bool, Vec<ConsumerMessage>, bool, bool)>,
     chan_ids: Vec<u16>,
     server_cancels_with_reply: Vec<(u16, String)>,
     server_cancels_nowait: Vec<(u16, String)>,
@@ -276,6 +303,9 @@ pub fn exec(c: &Case) -> Outcome {
                                 client_cancel_or_drop: false,
                                 candidate_causes: 0,
                                 delivery_between_cancel_and_ok: false,
+                                early: Vec::new(),
+                                live_open: false,
+                                live_probed: false,
                             });
                             consumers.push(Some(cons));
                         }
@@ -371,6 +401,8 @@ pub fn exec(c: &Case) -> Outcome {
                     if !barrier(&ctl) {
                         notes.push("connection-killed-by-consumer-drop".to_string());
                         conn_alive = false;
+                    } else if !is_drop && live && !already_cancelled {
+                        live_probe(&mut recs[k]);
                     }
                 }
                 Ev::Forget { c } => {
@@ -411,6 +443,7 @@ pub fn exec(c: &Case) -> Outcome {
                     if !barrier(&ctl) {
                         return Err("barrier failed after server cancel".into());
                     }
+                    live_probe(&mut recs[k]);
                 }
                 Ev::ClientCloseChannel { ch } => {
                     let i = *ch as usize % nch;
@@ -573,7 +606,7 @@ pub fn exec(c: &Case) -> Outcome {
         Ok(Driven {
             recs: recs
                 .into_iter()
-                .map(|r| (r.ch_idx, r.tag, r.rx, r.exp_bodies, r.exp_term, r.client_cancel_or_drop, r.candidate_causes, r.delivery_between_cancel_and_ok))
+                .map(|r| (r.ch_idx, r.tag, r.rx, r.exp_bodies, r.exp_term, r.client_cancel_or_drop, r.candidate_causes, r.delivery_between_cancel_and_ok, r.early, r.live_open, r.live_probed))
                 .collect(),
             chan_ids,
             server_cancels_with_reply,
@@ -592,7 +625,7 @@ pub fn exec(c: &Case) -> Outcome {
         }
     };
     let (_b, _io) = broker_handle.stop();
-    let d = match res {
+    let mut d = match res {
         Some(Ok(d)) => d,
         Some(Err(e)) => {
             let sig = if e.contains("barrier failed") { "connection-died-mid-history" } else { "client-call-failed" };
@@ -628,7 +661,12 @@ pub fn exec(c: &Case) -> Outcome {
     if c.events.iter().any(|e| matches!(e, Ev::DropConsumer { unwinding: true, .. })) {
         labels.push("consumer-dropped-while-unwinding".to_string());
     }
-    for (k, (_ch_idx, tag, rx, bodies, term, _cc, causes, between)) in d.recs.iter().enumerate() {
+    for (k, (_ch_idx, tag, rx, bodies, term, _cc, causes, between, early, live_open, live_probed)) in d.recs.iter_mut().enumerate() {
+        if *live_probed {
+            labels.push("live-disconnect-probe".to_string());
+        }
+        let mut early = std::mem::take(early).into_iter();
+        let (tag, rx, bodies, term, causes, between) = (&*tag, &*rx, &*bodies, &*term, &*causes, &*between);
         if *causes >= 2 || *between {
             nontrivial = true;
         }
@@ -644,7 +682,11 @@ pub fn exec(c: &Case) -> Outcome {
         let mut after_terminal = false;
         let mut disconnected = false;
         loop {
-            match rx.recv_timeout(Duration::from_secs(3)) {
+            let next = match early.next() {
+                Some(m) => Ok(m),
+                None => rx.recv_timeout(Duration::from_secs(3)),
+            };
+            match next {
                 Ok(ConsumerMessage::Delivery(dl)) => {
                     if !got_terms.is_empty() {
                         after_terminal = true;
@@ -688,6 +730,9 @@ pub fn exec(c: &Case) -> Outcome {
         if !disconnected {
             return Outcome::fail("queue-not-disconnected-after-terminal", ctx());
         }
+        if *live_open {
+            return Outcome::fail("queue-still-connected-while-channel-open", format!("the queue was still connected after the cancel had been processed (it was disconnected only by the teardown of the channel or connection)\n{}", ctx()));
+        }
     }
     // wire: one Basic.Cancel per client-cancelled/dropped consumer; CancelOk per server cancel iff !nowait
     let out = wire.out_snapshot();
@@ -697,7 +742,7 @@ pub fn exec(c: &Case) -> Outcome {
     };
     let chans = per_channel(&dec);
     let mut want_cancels: std::collections::BTreeMap<(u16, String), usize> = Default::default();
-    for (ch_idx, tag, _, _, _, cc, _, _) in &d.recs {
+    for (ch_idx, tag, _, _, _, cc, _, _, _, _, _) in &d.recs {
         *want_cancels.entry((d.chan_ids[*ch_idx], tag.clone())).or_default() += if *cc { 1 } else { 0 };
     }
     if want_cancels.len() < d.recs.len() {
@@ -786,7 +831,7 @@ fn strat(_t: Tier) -> BoxedStrategy<Case> {
 pub fn parts() -> Vec<Box<dyn PartDyn>> {
     vec![Box::new(Part::<Case> {
         name: "e2e",
-        rule: "histories of up to 40 events (consume, deliver, client cancel with 0-3 deliveries sent before CancelOk (a quarter of them crossed by the server's own cancel notification for the same consumer, which arrives right behind the CancelOk and must be answered), second cancel, drop (with or without a kept receiver; ordinarily or by a panic unwinding through the owner), forget, server cancel nowait/not, client/server channel close, client/server connection close) over 1-3 channels, in 40 % of the sessions against a server that gives a new consumer the tag of an ended consumer of that channel, driven by one thread with FIFO barriers so the broker script is the single source of order; oracle: per consumer the receiver yields exactly the model's deliveries in order, one terminal naming the first cause, then disconnect; one Basic.Cancel per cancelled/dropped consumer, CancelOk per server cancel iff not nowait; non-trivial = a delivery between cancel and CancelOk or >=2 candidate terminal causes for one consumer; distinct by case hash",
+        rule: "histories of up to 40 events (consume, deliver, client cancel with 0-3 deliveries sent before CancelOk (a quarter of them crossed by the server's own cancel notification for the same consumer, which arrives right behind the CancelOk and must be answered), second cancel, drop (with or without a kept receiver; ordinarily or by a panic unwinding through the owner), forget, server cancel nowait/not, client/server channel close, client/server connection close) over 1-3 channels, in 40 % of the sessions against a server that gives a new consumer the tag of an ended consumer of that channel, driven by one thread with FIFO barriers so the broker script is the single source of order; oracle: per consumer the receiver yields exactly the model's deliveries in order, one terminal naming the first cause, then disconnect (after a server cancel or an explicit client cancel the disconnect is also probed live, right behind the barrier that follows the cancel, while channel and connection are still open); one Basic.Cancel per cancelled/dropped consumer, CancelOk per server cancel iff not nowait; non-trivial = a delivery between cancel and CancelOk or >=2 candidate terminal causes for one consumer; distinct by case hash",
         cases: |t| t.pick(4000, 60_000),
         threads: 16,
         strategy: strat,
